@@ -178,6 +178,25 @@ def drain(io, reader, nc, remainder, timeout=5.0):
     io.run(go())
 
 
+def probes_pass(io, k=20):
+    """Load-adaptive part of the hang verdict.  A waiting caller needs the io loop to run its coroutine and the
+    scheduler to wake its thread; on a loaded machine that alone can take longer than any fixed grace period.  So
+    before a caller is declared hung, k fresh threads, one after the other, each make the same trip (submit a
+    coroutine to the io loop, wait for its result, end).  All of them were started after the state that settles the
+    outcome was confirmed; if they all get through while the caller is still waiting, the caller is not waiting for
+    the scheduler."""
+    async def noop():
+        await asyncio.sleep(0)
+
+    for _ in range(k):
+        t = Caller(lambda: asyncio.run_coroutine_threadsafe(noop(), io.loop).result())
+        t.start()
+        t.join(DEADLINE)
+        if t.is_alive():
+            return False
+    return True
+
+
 def settle(io, n=10):
     async def go():
         for _ in range(n):
@@ -327,7 +346,7 @@ def run_schedule(s):
         if nc._run_exit_event.is_set() or (not lost and len(reader._buffer) == 0):
             # ... and when nothing was lost and every fed byte has been consumed, nothing more will arrive either
             confirmed_at = confirmed_at or time.time()
-            if time.time() - confirmed_at > 0.5:
+            if time.time() - confirmed_at > 0.5 and probes_pass(io):
                 break
         else:
             confirmed_at = None
